@@ -696,6 +696,11 @@ class P2PNet(Engine):
                     stopped_unspec = True
                     # the frame was complete: position is still pinned for the try-parse reader
                     break
+                if g['kind'] == RP.REJECT and c.on_reject == 'stop':
+                    # the property leaves this payload open, the library refused it, and this reader's
+                    # policy is to stop at the first refusal: nothing further is expected of it
+                    stopped_unspec = True
+                    break
             elif rk == RP.REJECT:
                 ctx.check(g['kind'] == RP.REJECT, 'C18.parse', 'pipe %d outcome %d: bad %s must be rejected with an error, got %s'
                           % (c.cid, k, r['why'], g['kind']), expected=rk, why=r['why'], got=g['kind'], exc=g.get('exc'), **det)
